@@ -9,8 +9,8 @@ a set of sets, goes through the binary search of `sorted`).
 
 * Go `int` is `Int`; a slice expression or index outside its bounds is `Outcome.panic`.
 * `for low <= high` (binary search) has fuel and returns `Outcome.diverge` when it runs out.
-* `r.Shuffle` (package-level, clock-seeded `math/rand`) is a *parameter*: `sh n g` is the content of
-  the `indices` slice after `r.Shuffle(n, swap)` together with the generator's next state.  Nothing is
+* the package-level `shuffle` (`math/rand`'s `Shuffle`) is a *parameter*: `sh n g` is the content of
+  the `indices` slice after `shuffle(n, swap)` together with the generator's next state.  Nothing is
   assumed about it here; theorems assume only that it returns a permutation of `0 … n-1`.
 * `Powerset`/`Partitions` recurse on a freshly built `tail`; the recursion has fuel.
 -/
@@ -18,7 +18,7 @@ namespace AlgoVerif.C16
 
 abbrev EqualFunc (α : Type) := α → α → Outcome Bool
 abbrev CompareFunc (α : Type) := α → α → Outcome Int
-/-- `sh n g = (indices after r.Shuffle(n, …), next generator state)` -/
+/-- `sh n g = (indices after shuffle(n, …), next generator state)` -/
 abbrev Shuffle (σ : Type) := Nat → σ → List Nat × σ
 
 /-- the Go type behind a `Set[T]` interface value, with its callback field -/
@@ -335,5 +335,244 @@ def partitions (sh : Shuffle σ) : Nat → MSet α → σ → Outcome (MSet (MSe
 
 def MSet.partitions (sh : Shuffle σ) (s : MSet α) (g : σ) : Outcome (MSet (MSet (MSet α)) × σ) :=
   C16.partitions sh (s.members.length + 1) s g
+
+/-! ## histories
+
+A history is a list of operations on a file of registers, each holding a set object of any
+implementation; results of `Clone`/`Union`/… are stored into a register.  This is the machine the
+line-protocol driver runs (it only parses into `Op` and prints `Obs`). -/
+
+inductive Op (α : Type) where
+  | add (i : Nat) (vs : List α)
+  | remove (i : Nat) (vs : List α)
+  | removeAll (i : Nat)
+  | contains (i : Nat) (vs : List α)
+  | size (i : Nat)
+  | isEmpty (i : Nat)
+  | all (i : Nat)
+  | equal (i j : Nat)
+  | subset (i j : Nat)
+  | superset (i j : Nat)
+  | clone (d i : Nat)
+  | cloneEmpty (d i : Nat)
+  | new (d : Nat) (impl : Impl α)
+  | union (d i : Nat) (js : List Nat)
+  | inter (d i : Nat) (js : List Nat)
+  | diff (d i : Nat) (js : List Nat)
+
+/-- what an operation lets the caller see -/
+inductive Obs (α : Type) where
+  | unit
+  | bool (b : Bool)
+  | int (n : Int)
+  /-- the values yielded by `All()`, or the members of the set a set-algebra call returned -/
+  | elems (l : List α)
+  /-- a register number out of range: not an operation of the set package, the state is unchanged -/
+  | bad
+
+abbrev RegState (α σ : Type) := List (MSet α) × σ
+
+def getRegs (regs : List (MSet α)) : List Nat → Option (List (MSet α))
+  | [] => some []
+  | j :: js =>
+    match regs[j]?, getRegs regs js with
+    | some s, some ss => some (s :: ss)
+    | _, _ => none
+
+def stepOp (sh : Shuffle σ) (st : RegState α σ) : Op α → Outcome (RegState α σ × Obs α)
+  | .add i vs =>
+    match st.1[i]? with
+    | none => .ok (st, .bad)
+    | some s => do let s ← s.add vs; return ((st.1.set i s, st.2), .unit)
+  | .remove i vs =>
+    match st.1[i]? with
+    | none => .ok (st, .bad)
+    | some s => do let s ← s.remove vs; return ((st.1.set i s, st.2), .unit)
+  | .removeAll i =>
+    match st.1[i]? with
+    | none => .ok (st, .bad)
+    | some s => .ok ((st.1.set i s.removeAll, st.2), .unit)
+  | .contains i vs =>
+    match st.1[i]? with
+    | none => .ok (st, .bad)
+    | some s => do let b ← s.contains vs; return (st, .bool b)
+  | .size i =>
+    match st.1[i]? with
+    | none => .ok (st, .bad)
+    | some s => .ok (st, .int s.size)
+  | .isEmpty i =>
+    match st.1[i]? with
+    | none => .ok (st, .bad)
+    | some s => .ok (st, .bool s.isEmpty)
+  | .all i =>
+    match st.1[i]? with
+    | none => .ok (st, .bad)
+    | some s => do let (ms, g) ← s.all sh st.2; return ((st.1, g), .elems ms)
+  | .equal i j =>
+    match st.1[i]?, st.1[j]? with
+    | some s, some t => do let b ← s.equal t; return (st, .bool b)
+    | _, _ => .ok (st, .bad)
+  | .subset i j =>
+    match st.1[i]?, st.1[j]? with
+    | some s, some t => do let (b, g) ← s.isSubset sh t st.2; return ((st.1, g), .bool b)
+    | _, _ => .ok (st, .bad)
+  | .superset i j =>
+    match st.1[i]?, st.1[j]? with
+    | some s, some t => do let (b, g) ← s.isSuperset sh t st.2; return ((st.1, g), .bool b)
+    | _, _ => .ok (st, .bad)
+  | .clone d i =>
+    match st.1[i]? with
+    | some s => if d < st.1.length then .ok ((st.1.set d s.clone, st.2), .unit) else .ok (st, .bad)
+    | none => .ok (st, .bad)
+  | .cloneEmpty d i =>
+    match st.1[i]? with
+    | some s => if d < st.1.length then .ok ((st.1.set d s.cloneEmpty, st.2), .unit) else .ok (st, .bad)
+    | none => .ok (st, .bad)
+  | .new d impl =>
+    if d < st.1.length then .ok ((st.1.set d (MSet.new impl), st.2), .unit) else .ok (st, .bad)
+  | .union d i js =>
+    match st.1[i]?, getRegs st.1 js with
+    | some s, some sets =>
+      if d < st.1.length then do
+        let (t, g) ← s.union sh sets st.2
+        return ((st.1.set d t, g), .elems t.members)
+      else .ok (st, .bad)
+    | _, _ => .ok (st, .bad)
+  | .inter d i js =>
+    match st.1[i]?, getRegs st.1 js with
+    | some s, some sets =>
+      if d < st.1.length then do
+        let t ← s.intersection sets
+        return ((st.1.set d t, st.2), .elems t.members)
+      else .ok (st, .bad)
+    | _, _ => .ok (st, .bad)
+  | .diff d i js =>
+    match st.1[i]?, getRegs st.1 js with
+    | some s, some sets =>
+      if d < st.1.length then do
+        let (t, g) ← s.difference sh sets st.2
+        return ((st.1.set d t, g), .elems t.members)
+      else .ok (st, .bad)
+    | _, _ => .ok (st, .bad)
+
+def runOps (sh : Shuffle σ) : List (Op α) → RegState α σ → Outcome (RegState α σ × List (Obs α))
+  | [], st => .ok (st, [])
+  | op :: ops, st => do
+    let (st, o) ← stepOp sh st op
+    let (st, os) ← runOps sh ops st
+    return (st, o :: os)
+
+/-! ## slice store: which backing arrays a set-algebra call writes
+
+The functional Model above cannot express "the operands are not modified": Go slices share backing
+arrays and `Remove` / `Add` edit them in place.  This section re-runs Clone / CloneEmpty / Add / Remove and
+the three set-algebra loops on set objects that additionally carry the *identity* and *capacity* of the
+backing array of `members`, and records every array written:
+
+* `make([]T, n)` (+ `copy`) allocates a new array (`Clone`, `CloneEmpty`);
+* `append(s.members, v)` writes the array of `s.members` when `len < cap`, otherwise it allocates a new
+  array of capacity `grow (len+1)` (Go's growth rule is a parameter) and writes that;
+* `append(s.members[:i], s.members[i+1:]...)` shifts inside the array of `s.members`;
+* `append(s.members[:low], append([]T{val}, s.members[low:]...)...)` allocates a temporary array for the
+  inner `append`, then behaves like the first `append`.
+
+Reads are not recorded.  The contents are those of the functional Model (`HSet.set`). -/
+
+structure HSet (α : Type) where
+  set : MSet α
+  /-- identity of the backing array of `set.members` -/
+  buf : Nat
+  cap : Nat
+
+structure Store where
+  /-- arrays `0 … next-1` have been allocated -/
+  next : Nat
+  /-- arrays written, most recent first -/
+  writes : List Nat
+
+def Store.alloc (st : Store) : Nat × Store := (st.next, { st with next := st.next + 1 })
+def Store.write (st : Store) (b : Nat) : Store := { st with writes := b :: st.writes }
+
+/-- `Clone`: `make([]T, len(s.members))`, `copy` -/
+def HSet.clone (s : HSet α) (st : Store) : HSet α × Store :=
+  let (b, st) := st.alloc
+  ({ set := s.set.clone, buf := b, cap := s.set.members.length }, st.write b)
+
+/-- `CloneEmpty`: `make([]T, 0)` -/
+def HSet.cloneEmpty (s : HSet α) (st : Store) : HSet α × Store :=
+  let (b, st) := st.alloc
+  ({ set := s.set.cloneEmpty, buf := b, cap := 0 }, st)
+
+/-- `sorted.add` builds `append([]T{val}, s.members[low:]...)` in an array of its own first -/
+def Store.tmpFor (st : Store) : Impl α → Store
+  | .sorted _ => (st.alloc.2).write st.alloc.1
+  | _ => st
+
+/-- one round of `Add` -/
+def HSet.add1 (grow : Nat → Nat) (t : HSet α) (v : α) (st : Store) : Outcome (HSet α × Store) := do
+  let s' ← t.set.add1 v
+  if s'.members.length = t.set.members.length then
+    return ({ t with set := s' }, st) -- already a member: nothing is written
+  else
+    let st := st.tmpFor t.set.impl
+    if s'.members.length ≤ t.cap then
+      return ({ t with set := s' }, st.write t.buf)
+    else
+      let (b, st) := st.alloc
+      return ({ set := s', buf := b, cap := grow s'.members.length }, st.write b)
+
+/-- one round of `Remove` -/
+def HSet.remove1 (t : HSet α) (v : α) (st : Store) : Outcome (HSet α × Store) := do
+  let s' ← t.set.remove1 v
+  if s'.members.length = t.set.members.length then return ({ t with set := s' }, st)
+  else return ({ t with set := s' }, st.write t.buf)
+
+def hAddEach (grow : Nat → Nat) (t : HSet α) : List α → Store → Outcome (HSet α × Store)
+  | [], st => .ok (t, st)
+  | m :: ms, st => do
+    let (t, st) ← t.add1 grow m st
+    hAddEach grow t ms st
+
+def hRemoveEach (t : HSet α) : List α → Store → Outcome (HSet α × Store)
+  | [], st => .ok (t, st)
+  | m :: ms, st => do
+    let (t, st) ← t.remove1 m st
+    hRemoveEach t ms st
+
+def hUnionLoop (sh : Shuffle σ) (grow : Nat → Nat) (t : HSet α) : List (HSet α) → σ → Store → Outcome (HSet α × σ × Store)
+  | [], g, st => .ok (t, g, st)
+  | u :: us, g, st => do
+    let (ms, g) ← u.set.all sh g
+    let (t, st) ← hAddEach grow t ms st
+    hUnionLoop sh grow t us g st
+
+def HSet.union (sh : Shuffle σ) (grow : Nat → Nat) (s : HSet α) (sets : List (HSet α)) (g : σ) (st : Store) :
+    Outcome (HSet α × σ × Store) :=
+  let (t, st) := s.clone st
+  hUnionLoop sh grow t sets g st
+
+def hInterLoop (grow : Nat → Nat) (sets : List (HSet α)) (t : HSet α) : List α → Store → Outcome (HSet α × Store)
+  | [], st => .ok (t, st)
+  | m :: ms, st => do
+    if (← allContain m (sets.map (·.set))) then
+      let (t, st) ← t.add1 grow m st
+      hInterLoop grow sets t ms st
+    else hInterLoop grow sets t ms st
+
+def HSet.intersection (grow : Nat → Nat) (s : HSet α) (sets : List (HSet α)) (st : Store) : Outcome (HSet α × Store) :=
+  let (t, st) := s.cloneEmpty st
+  hInterLoop grow sets t s.set.members st
+
+def hDiffLoop (sh : Shuffle σ) (t : HSet α) : List (HSet α) → σ → Store → Outcome (HSet α × σ × Store)
+  | [], g, st => .ok (t, g, st)
+  | u :: us, g, st => do
+    let (ms, g) ← u.set.all sh g
+    let (t, st) ← hRemoveEach t ms st
+    hDiffLoop sh t us g st
+
+def HSet.difference (sh : Shuffle σ) (s : HSet α) (sets : List (HSet α)) (g : σ) (st : Store) :
+    Outcome (HSet α × σ × Store) :=
+  let (t, st) := s.clone st
+  hDiffLoop sh t sets g st
 
 end AlgoVerif.C16
